@@ -14,6 +14,9 @@ def get_prop(pid):
     if pid == "C16":
         import p_trainer
         return p_trainer.TrainerProp()
+    if pid == "C18":
+        import p_builders
+        return p_builders.BuildersProp()
     raise SystemExit(f"unknown property {pid}")
 
 
